@@ -727,5 +727,23 @@ int main(int argc, char **argv) {
                         "a timestamp within 1 s of a date change",
                     [v](int) { return gen_variant(v); }, run_variant});
   }
+  // every case in a fresh process (fork from a parent that never calls the library): what the FIRST call of a process does, in particular
+  // when the clock cannot be read at that very first call
+  Sub fr{"fresh",
+         "any of the four variants as the first signing call of a process (each case runs in a forked child whose parent never calls the library); in every second case the "
+         "first time() call fails and the function must report failure. Oracle as for the variants. Non-trivial: as for the variants",
+         [](int) {
+           return rc::gen::exec([]() {
+             Case c = *gen_variant(*range<int>(0, 3));
+             bool has_tf = false;
+             for (auto &op : c) has_tf = has_tf || op.k == "tf";
+             if (!has_tf && *range<int>(0, 1)) c.push_back(Op("tf", {0}));
+             return c;
+           });
+         },
+         run_variant};
+  fr.fork = true;
+  fr.timeout_s = 20;
+  subs.push_back(fr);
   return pbt_main(argc, argv, subs);
 }
